@@ -267,10 +267,60 @@ def bestEffortServiceMode (a : Authn) (ns : String) : MTLS :=
   | .unknown => .permissive
   | m => m
 
+/-- All branches of `BestEffortInferServiceMTLSMode`: UNKNOWN for a mesh-external service; for a
+    passthrough service (resolution NONE or PASSTHROUGH load balancer) DISABLE when it has no endpoint
+    on the port or one of them is labelled `tlsMode=disabled`; else the namespace/mesh level. -/
+def bestEffortFull (a : Authn) (ns : String) (external passthrough : Bool) (epDisabled : List Bool) : MTLS :=
+  if external then .unknown
+  else if passthrough && (epDisabled.isEmpty || epDisabled.any id) then .disable
+  else bestEffortServiceMode a ns
+
 /-- `networking.ClientTLSSettings_TLSmode`. -/
 inductive DRMode
   | disable | simple | mutual | istioMutual
   deriving DecidableEq, Repr, Inhabited
+
+/-- `networking.TrafficPolicy` as far as `trafficPolicyTLSModeForPort` reads it: the `tls` mode (nil =
+    none) and the port-level settings (port, `tls` mode or nil). -/
+structure TPolicy where
+  tls   : Option DRMode
+  ports : List (Nat × Option DRMode)
+  deriving DecidableEq, Repr
+
+/-- First port-level setting for the port that has TLS settings. -/
+def portLevelTLS (port : Nat) : List (Nat × Option DRMode) → Option DRMode
+  | [] => none
+  | (p, m) :: t => if p == port && m.isSome then m else portLevelTLS port t
+
+/-- `trafficPolicyTLSModeForPort`. -/
+def tpolicyMode (tp : Option TPolicy) (port : Nat) : Option DRMode :=
+  match tp with
+  | none => none
+  | some t =>
+    match portLevelTLS port t.ports with
+    | some m => some m
+    | none => t.tls
+
+/-- A DestinationRule: its traffic policy and its subsets (name, traffic policy). -/
+structure DRule where
+  top     : Option TPolicy
+  subsets : List (String × Option TPolicy)
+  deriving DecidableEq, Repr
+
+def subsetMode (top : Option TPolicy) (port : Nat) (subset : String) : List (String × Option TPolicy) → Option DRMode
+  | [] => none                                  -- no subset of that name: nil
+  | (n, tp) :: t =>
+    if n == subset then
+      match tpolicyMode tp port with
+      | some m => some m
+      | none => tpolicyMode top port           -- fall back to the rule's own traffic policy
+    else subsetMode top port subset t
+
+/-- `tlsModeForDestinationRule(dr, subset, port)`. -/
+def drTLSMode (dr : Option DRule) (subset : String) (port : Nat) : Option DRMode :=
+  match dr with
+  | none => none
+  | some r => if subset == "" then tpolicyMode r.top port else subsetMode r.top port subset r.subsets
 
 /-- `mtlsChecker.checkMtlsEnabled`: `dr` is the DestinationRule TLS mode for the port (nil = none),
     `epTLS` is `ep.TLSMode == "istio"`. -/
